@@ -94,13 +94,38 @@ fn run_case(i: usize, case: &Value) -> Value {
             }
         }
         let noting = mdc.is_empty() && v % 3 == 1;
+        // every fifth record is encoded by a guard's Drop while a panic unwinds the stack it lives on (a scope guard that
+        // logs how its scope ended): the record and the thread's context map are what they are - how the call was
+        // reached is no part of JsonLine.tla
+        let unwinding = (v / 3) % 5 == 2;
         let r = catch(|| {
-            let mut b = log::Record::builder();
-            b.level(lvl).target(&target).module_path(module.as_deref()).file(file.as_deref()).line(line);
-            if noting {
-                enc.encode(&mut cap, &b.args(format_args!("{}", Noting(&message))).build())
-            } else {
-                enc.encode(&mut cap, &b.args(format_args!("{}", message)).build())
+            let mut do_encode = || -> anyhow::Result<()> {
+                let mut b = log::Record::builder();
+                b.level(lvl).target(&target).module_path(module.as_deref()).file(file.as_deref()).line(line);
+                if noting {
+                    enc.encode(&mut cap, &b.args(format_args!("{}", Noting(&message))).build())
+                } else {
+                    enc.encode(&mut cap, &b.args(format_args!("{}", message)).build())
+                }
+            };
+            if !unwinding {
+                return do_encode();
+            }
+            struct Guard<'a>(&'a mut dyn FnMut());
+            impl<'a> Drop for Guard<'a> {
+                fn drop(&mut self) {
+                    (self.0)()
+                }
+            }
+            let mut res: Option<Result<anyhow::Result<()>, String>> = None;
+            let _ = std::panic::catch_unwind(std::panic::AssertUnwindSafe(|| {
+                let mut f = || res = Some(catch(|| do_encode()));
+                let _g = Guard(&mut f);
+                panic!("the scope ends with a panic");
+            }));
+            match res.expect("the guard ran") {
+                Ok(r) => r,
+                Err(p) => panic!("{}", p),
             }
         });
         log_mdc::remove("late");
